@@ -6,9 +6,12 @@
 (* RewritesCore.tla holds the decision procedure (Outcomes, StepResults,   *)
 (* Serve).  This module                                                    *)
 (*   - fixes finite universes of names, patterns and answers,              *)
-(*   - enumerates rewrite tables (every SEQUENCE of entries up to MaxLen,  *)
-(*     plus two dedicated families: CNAME cycles of length 1..4 and the    *)
-(*     four-rung precedence ladder exact > *.l3 > *.l2 > *.l1),            *)
+(*   - enumerates rewrite tables: every multiset of at most MaxLen entries *)
+(*     (one representative order; the specification does not depend on the *)
+(*     order, PermutationInvariant, and the harness replays EVERY order),  *)
+(*     plus two dedicated families given as sequences: CNAME cycles of     *)
+(*     length 1..4 and the four-rung precedence ladder                     *)
+(*     exact > *.l3 > *.l2 > *.l1,                                         *)
 (*   - evaluates every query (name x type) against every table, checks the *)
 (*     clauses of the statement as invariants of that verdict table and    *)
 (*     emits it as one vector per table for the conformance harness,       *)
